@@ -29,6 +29,7 @@ type vInst struct {
 	start  []any
 	result []any
 	extra  [2][]int
+	fault  bool // the harness made this job fail (MergeFail)
 	goStart chan struct{}
 	goDone  chan struct{}
 	posted  chan struct{}
@@ -539,6 +540,9 @@ func (s *vScenario) projectJob(kind string) map[string]any {
 				j["nfiles"] = len(merged)
 			}
 			j["err"] = errStr(in.result[1])
+			if in.fault { // an injected failure is part of the schedule, not a finding
+				j["err"] = ""
+			}
 		}
 	case "conv":
 		cs := in.start[0].([]*converters.CachedConverter)
